@@ -56,6 +56,12 @@ theorem sat_hom (x y : Nat) :
   · rw [mul_eq_spec (rep_inInt x) (rep_inInt y), mulSpec_rep]
   · rw [add_eq_spec (rep_inInt x) (rep_inInt y), addSpec_rep]
 
+/-- **arith_never_panics** — for arbitrary integers the two helpers return a value (`some`): the only
+    division is guarded, so the rule cannot die of an integer divide by zero. -/
+theorem arith_never_panics (a b : Int) :
+    (checkedNonNegativeMultiply a b).isSome = true ∧ (checkedNonNegativeAdd a b).isSome = true :=
+  ⟨mul_isSome a b, add_isSome a b⟩
+
 -- non-vacuity / sanity of the arithmetic statements at the boundary
 example : checkedNonNegativeMultiply 3037000499 3037000499 = some 9223372030926249001 := by decide
 example : checkedNonNegativeMultiply 3037000500 3037000500 = some (-1) := by decide
@@ -168,41 +174,23 @@ theorem accepted_cost_le_max {κ : Type} (ctx0 : κ) (opName : String) (max : In
   · omega
   · exact h
 
-/-- **invalid_rejected_no_panic** — a request outside the reference's domain (undefined or cyclic
-    fragment spread, field without definition, un-coercible arguments) is rejected without writing
-    `actual`, and — like every request in the property's domain — never makes the rule panic
-    (no empty-stack index, no division by zero). -/
-theorem invalid_rejected_no_panic {κ : Type} (ctx0 : κ) (opName : String) (max : Int)
-    (dflt : FieldCost κ) (doc : Doc κ) (hdoc : doc.OK) (hd : dflt.OK) :
-    (∀ w, (validateCost ctx0 opName true max dflt doc).verdict ≠ .panicked w) ∧
-    (Spec.refCost ctx0 opName dflt doc = none →
-      (validateCost ctx0 opName true max dflt doc).actual = none ∧
-      (validateCost ctx0 opName true max dflt doc).accepted = false) := by
+/-- **invalid_rejected** — a request outside the reference's domain (undefined or cyclic fragment
+    spread, field without definition, un-coercible arguments) is rejected (with secondary errors
+    only) and `actual` is not written. -/
+theorem invalid_rejected {κ : Type} (ctx0 : κ) (opName : String) (max : Int)
+    (dflt : FieldCost κ) (doc : Doc κ) (hdoc : doc.OK) (hd : dflt.OK)
+    (href : Spec.refCost ctx0 opName dflt doc = none) :
+    (validateCost ctx0 opName true max dflt doc).actual = none ∧
+    (validateCost ctx0 opName true max dflt doc).accepted = false := by
   have h := finalCost_eq ctx0 opName dflt doc hdoc hd
-  cases href : Spec.refCost ctx0 opName dflt doc with
-  | some R =>
-    rw [href] at h
-    simp only at h
-    refine ⟨?_, fun h' => by cases h'⟩
-    intro w
-    unfold validateCost
-    rw [h]
-    simp only [report]
-    repeat' split
-    all_goals (intro hc; cases hc)
-  | none =>
-    rw [href] at h
-    obtain ⟨e, he, hp⟩ := h
-    unfold validateCost Result.accepted
-    rw [he]
-    cases e with
-    | secondary m =>
-      refine ⟨?_, fun _ => ⟨rfl, rfl⟩⟩
-      intro w hc; cases hc
-    | panic w => exact absurd rfl (hp w)
-    | outOfFuel =>
-      refine ⟨?_, fun _ => ⟨rfl, rfl⟩⟩
-      intro w hc; cases hc
+  rw [href] at h
+  obtain ⟨e, he, hp⟩ := h
+  unfold validateCost Result.accepted
+  rw [he]
+  cases e with
+  | secondary m => exact ⟨rfl, rfl⟩
+  | panic w => exact absurd rfl (hp w)
+  | outOfFuel => exact ⟨rfl, rfl⟩
 
 /-- Variables that cannot be coerced (`CoerceVariableValues` fails, lines 66-73) reject the request
     with a secondary error whenever an operation was chosen. -/
@@ -238,6 +226,53 @@ theorem walk_never_out_of_fuel {κ : Type} (ctx0 : κ) (opName : String) (varsOk
   · intro hc; cases hc
   · intro hc; cases hc
   · rename_i h; exact absurd h hfc
+
+/-- **never_panics** — for *every* document, cost functions returning arbitrary integers (also
+    negative ones), every operation name, default and limit, the rule does not panic: the
+    `multipliers` / `ctxs` stacks are never indexed or sliced while empty (they are pushed and popped
+    in step with `ast.Inspect`) and the arithmetic never divides by zero. -/
+theorem never_panics {κ : Type} (ctx0 : κ) (opName : String) (varsOk : Bool) (max : Int)
+    (dflt : FieldCost κ) (doc : Doc κ) (w : String) :
+    (validateCost ctx0 opName varsOk max dflt doc).verdict ≠ .panicked w := by
+  have hfc : ∀ w, finalCost ctx0 opName varsOk dflt doc ≠ .error (.panic w) := by
+    intro w
+    unfold finalCost
+    split
+    · intro h; cases h
+    · split
+      · rename_i o _ _
+        have hs := walk_safe doc.frags dflt doc.frags.length [] o.node
+          { cost := 0, mults := [1], ctxs := [ctx0] } 1 [] ctx0 [] rfl rfl
+        rcases hs with ⟨st', he, _, _⟩ | ⟨e, he, hp⟩
+        · rw [he]; intro h; cases h
+        · rw [he]; intro h
+          simp only [bind, Except.bind, Except.error.injEq] at h
+          exact hp w h
+      · intro h; cases h
+  unfold validateCost
+  split
+  · simp only [report]
+    repeat' split
+    all_goals (intro hc; cases hc)
+  · intro hc; cases hc
+  · rename_i w' h
+    exact absurd h (hfc w')
+  · intro hc; cases hc
+
+/-- **walk_restores_stacks** — whenever the walk of any node of any document returns normally, both
+    stacks are exactly what they were before the node: every push (lines 135-136) is matched by the
+    pop of `f(nil)` (lines 83-87), also around nested fragment expansions. -/
+theorem walk_restores_stacks {κ : Type} (frags : List (String × Node κ)) (dflt : FieldCost κ)
+    (fuel : Nat) (path : List String) (node : Node κ) (st st' : St κ) (m : Int) (ms : List Int)
+    (c : κ) (cs : List κ) (h1 : st.mults = m :: ms) (h2 : st.ctxs = c :: cs)
+    (h : walk frags dflt fuel path node st = .ok st') :
+    st'.mults = st.mults ∧ st'.ctxs = st.ctxs := by
+  rcases walk_safe frags dflt fuel path node st m ms c cs h1 h2 with ⟨st'', he, e1, e2⟩ | ⟨e, he, _⟩
+  · rw [h] at he
+    simp only [Except.ok.injEq] at he
+    subst he
+    rw [h1, h2]; exact ⟨e1, e2⟩
+  · rw [h] at he; cases he
 
 /-- What validation guarantees about a document (the part the cost rule relies on): every field has
     a definition and coercible arguments, every spread names a defined fragment, and the fragments
